@@ -440,9 +440,85 @@ func runSeq(c seqCase) (what string, compared int) {
 	return "", compared
 }
 
+// byteCases: every byte value on its own inside a message, a value and a key (a byte that the text layer prints raw
+// and the JSON layer must escape - or the other way round - shows only when nothing else in the string forces
+// quoting).  onlyOpt/onlyByte >= 0 restrict the sweep (replay).
+func byteCases(r *mon.Run, onlyOpt, onlyByte int) {
+	for _, opt := range []int{0, 3, 10} {
+		if onlyOpt >= 0 && opt != onlyOpt {
+			continue
+		}
+		o := options(optKind(opt))
+		rec := &plainRecorder{}
+		nd := derive(node{mkHandler(rec, optKind(opt)), nil}, []slog.Attr{slog.String("h", "v")})
+		for b := 0; b < 256; b++ {
+			if onlyByte >= 0 && b != onlyByte {
+				continue
+			}
+			x := "x" + string([]byte{byte(b)}) + "y"
+			for k, rr := range []slog.Record{slog.NewRecord(time.Time{}, slog.LevelInfo, x, 0), slog.NewRecord(time.Time{}, slog.LevelError, "m", 0), slog.NewRecord(time.Time{}, slog.LevelWarn, "m", 0)} {
+				switch k {
+				case 1:
+					rr.AddAttrs(slog.String("k", x))
+				case 2:
+					rr.AddAttrs(slog.Int(x, 1))
+				}
+				w, cmp := logThrough(rec, o, nd, rr)
+				if cmp {
+					r.Eval(1)
+				}
+				if w != "" {
+					r.Violation(fmt.Sprintf("byte:%d:%d:%d", opt, b, k), fmt.Sprintf("options #%d, byte 0x%02x alone inside the %s: %s", opt, b, []string{"message", "value of a string attribute", "key of an attribute"}[k], w), map[string]any{"options": opt, "byte": b, "where": k, "kind": "byte"})
+				}
+			}
+		}
+	}
+}
+
+// randRecord: record number i of the random sweep (its own generator, so that it can be replayed alone).
+func randRecord(r *mon.Run, i int) (compared bool) {
+	rng := rand.New(rand.NewPCG(r.Seed+600, uint64(i)))
+	ok := optKind(rng.IntN(nOpts))
+	o := options(ok)
+	rec := &plainRecorder{}
+	nd := node{mkHandler(rec, ok), nil}
+	for k := rng.IntN(3); k > 0; k-- {
+		var as []slog.Attr
+		for j := rng.IntN(4); j > 0; j-- {
+			as = append(as, rawKeyAttr(rng.IntN(10_000)))
+		}
+		nd = derive(nd, as)
+	}
+	rc := mkRecord(slog.Level(rng.IntN(21)-8), hostile[rng.IntN(len(hostile))], rng.IntN(6), rng.IntN(100_000), rng.IntN(2) == 0)
+	what, cmp := logThrough(rec, o, nd, rc)
+	if what != "" {
+		r.Violation(fmt.Sprintf("rand:%d", i), fmt.Sprintf("random record #%d: %s", i, what), map[string]any{"index": i, "kind": "random"})
+	}
+	return cmp
+}
+
 func TestSequential(t *testing.T) {
 	r := mon.Start("C19", "sequential")
 	var rc seqCase
+	var other struct {
+		Kind  string `json:"kind"`
+		Opt   int    `json:"options"`
+		Byte  int    `json:"byte"`
+		Index int    `json:"index"`
+	}
+	if ok, _ := mon.ReplayCase("sequential", &other); ok && other.Kind != "" {
+		if other.Kind == "byte" {
+			byteCases(r, other.Opt, other.Byte)
+		} else {
+			randRecord(r, other.Index)
+		}
+		r.Eval(1)
+		r.NontrivialN(2)
+		if r.Finish() > 0 {
+			t.Fail()
+		}
+		return
+	}
 	if ok, err := mon.ReplayCase("sequential", &rc); ok {
 		if err != nil {
 			t.Fatal(err)
@@ -486,60 +562,19 @@ func TestSequential(t *testing.T) {
 	})
 	r.NontrivialN(int64(len(cases)))
 	r.Count("derivation_trees", int64(len(cases)))
-	// every byte value on its own inside a message, a value and a key (a byte that the text layer prints raw and the
-	// JSON layer must escape - or the other way round - shows only when nothing else in the string forces quoting)
-	for _, opt := range []int{0, 3, 10} {
-		o := options(optKind(opt))
-		rec := &plainRecorder{}
-		nd := derive(node{mkHandler(rec, optKind(opt)), nil}, []slog.Attr{slog.String("h", "v")})
-		for b := 0; b < 256; b++ {
-			x := "x" + string([]byte{byte(b)}) + "y"
-			for k, rr := range []slog.Record{slog.NewRecord(time.Time{}, slog.LevelInfo, x, 0), slog.NewRecord(time.Time{}, slog.LevelError, "m", 0), slog.NewRecord(time.Time{}, slog.LevelWarn, "m", 0)} {
-				switch k {
-				case 1:
-					rr.AddAttrs(slog.String("k", x))
-				case 2:
-					rr.AddAttrs(slog.Int(x, 1))
-				}
-				w, cmp := logThrough(rec, o, nd, rr)
-				if cmp {
-					r.Eval(1)
-				}
-				if w != "" {
-					r.Violation(fmt.Sprintf("byte:%d:%d:%d", opt, b, k), fmt.Sprintf("options #%d, byte 0x%02x alone inside the %s: %s", opt, b, []string{"message", "value of a string attribute", "key of an attribute"}[k], w), map[string]any{"options": opt, "byte": b, "where": k})
-				}
-			}
-		}
-	}
+	byteCases(r, -1, -1)
 	r.Exhaustive(fmt.Sprintf("every attribute-count vector in {0,1,2,3}^d for d<=%d x %d handler option sets; 3 siblings per level derived before any of them logs, logged in 4 orders with records of 0/1/3 attributes; Enabled on levels -8..12; one Record (0..40 attributes) handed to two siblings", maxDepth, nOpts))
 	r.Sample(seqCase{3, []int{2, 0, 3}, 1, 77})
 	// random records against single handlers: every value kind and hostile key
 	nr := r.Pick(60_000, 2_000_000)
 	var refPanics atomic.Int64
 	mon.Parallel(nr, func(w, lo, hi int) {
-		rng := r.Rand(uint64(600 + w))
 		var n int64
 		for i := lo; i < hi; i++ {
-			ok := optKind(rng.IntN(nOpts))
-			o := options(ok)
-			rec := &plainRecorder{}
-			nd := node{mkHandler(rec, ok), nil}
-			for k := rng.IntN(3); k > 0; k-- {
-				var as []slog.Attr
-				for j := rng.IntN(4); j > 0; j-- {
-					as = append(as, rawKeyAttr(rng.IntN(10_000)))
-				}
-				nd = derive(nd, as)
-			}
-			rc := mkRecord(slog.Level(rng.IntN(21)-8), hostile[rng.IntN(len(hostile))], rng.IntN(6), rng.IntN(100_000), rng.IntN(2) == 0)
-			what, cmp := logThrough(rec, o, nd, rc)
-			if cmp {
+			if randRecord(r, i) {
 				n++
 			} else {
 				refPanics.Add(1)
-			}
-			if what != "" {
-				r.Violation(fmt.Sprintf("rand:%d", i), fmt.Sprintf("random record #%d: %s", i, what), map[string]any{"index": i})
 			}
 		}
 		r.Eval(n)
